@@ -188,6 +188,17 @@ fn wall_limit_ms() -> u64 {
 }
 
 /// Starts the detached watchdog thread (once per process).
+/// CPU time (user + system) this process has consumed so far, in ms.
+fn process_cpu_ms() -> Option<u64> {
+    let stat = std::fs::read_to_string("/proc/self/stat").ok()?;
+    let rest = &stat[stat.rfind(')')? + 1..];
+    let f: Vec<&str> = rest.split_whitespace().collect();
+    // after the ")": state is f[0]; utime and stime are fields 14 and 15 of the line
+    let utime: u64 = f.get(11)?.parse().ok()?;
+    let stime: u64 = f.get(12)?.parse().ok()?;
+    Some((utime + stime) * 10)
+}
+
 pub fn start_watchdog() {
     static STARTED: std::sync::atomic::AtomicBool = std::sync::atomic::AtomicBool::new(false);
     if STARTED.swap(true, Ordering::SeqCst) {
@@ -199,88 +210,125 @@ pub fn start_watchdog() {
     // limit, say) must not linger
     let supervised = std::env::var("VERIF_INNER").is_ok();
     let parent = std::os::unix::process::parent_id();
-    std::thread::spawn(move || loop {
-        std::thread::sleep(Duration::from_millis(500));
-        if supervised && std::os::unix::process::parent_id() != parent {
-            std::process::exit(2);
-        }
-        let now = now_ms();
-        let slots: Vec<std::sync::Arc<WatchSlot>> = SLOTS.lock().unwrap().clone();
-        for slot in slots {
-            let started = slot.started_ms.load(Ordering::SeqCst);
-            if started == 0 || now.saturating_sub(started) < limit {
-                continue;
+    std::thread::spawn(move || {
+        // (wall ms, process CPU ms) samples of the recent past: a run only
+        // counts as hanging if the process really burnt CPU while it was
+        // stuck - a stopped, frozen or starved process is not a loop in the
+        // code under test
+        let mut samples: std::collections::VecDeque<(u64, u64)> = std::collections::VecDeque::new();
+        let mut strikes = 0u32;
+        loop {
+            std::thread::sleep(Duration::from_millis(500));
+            if supervised && std::os::unix::process::parent_id() != parent {
+                std::process::exit(2);
             }
-            let meta = slot.meta.lock().unwrap();
-            let idx = slot.run_index.load(Ordering::SeqCst);
-            let detail = format!(
-                "a run has been executing for more than {} s of wall-clock time without finishing and without tripping a run-away guard of the simulated streams: the code under test loops without touching its input or output",
-                limit / 1000
-            );
-            match meta.as_ref() {
-                Some(m) => {
-                    let dir = verif_dir();
-                    let path = if idx != u64::MAX {
-                        let sweep_len = slot.sweep_len.load(Ordering::SeqCst);
-                        let path = dir.join("replays").join(format!("{}-{}-{}.json", m.property, m.seed, idx));
-                        let _ = std::fs::create_dir_all(dir.join("replays"));
-                        let doc = json!({
-                            "property": m.property,
-                            "scenario": m.scenario,
-                            "seed": m.seed,
-                            "tier": m.tier,
-                            "run_index": idx,
-                            "sweep_index": if idx < sweep_len { json!(idx) } else { Value::Null },
-                            "from_seed": true,
-                            "tape": Value::Null,
-                            "violation": { "class": "hang", "key": "wall-clock", "detail": detail },
-                            "log": [],
-                            "note": "not minimised: the run cannot be interrupted; replay regenerates the tape from (seed, run index)",
-                        });
-                        let _ = std::fs::write(&path, serde_json::to_string_pretty(&doc).unwrap());
-                        // Confirm in a fresh process before this becomes a
-                        // verdict: a frozen or starved process must not be
-                        // mistaken for a loop in the code under test.
-                        let confirmed = std::env::current_exe().ok().and_then(|exe| {
-                            std::process::Command::new(exe)
-                                .arg("replay")
-                                .arg(&path)
-                                .env("VERIF_DIR", &dir)
-                                .env("VERIF_INNER", "1")
-                                .stderr(std::process::Stdio::null())
-                                .output()
-                                .ok()
-                        });
-                        if let Some(o) = &confirmed {
-                            let lines: Vec<String> = String::from_utf8_lossy(&o.stdout).lines().filter(|l| l.starts_with("  #")).map(|l| l.trim_start().to_string()).collect();
-                            attach_log(&path, &lines);
+            let now = now_ms();
+            let cpu_now = process_cpu_ms();
+            if let Some(c) = cpu_now {
+                samples.push_back((now, c));
+                while samples.front().map(|(t, _)| now.saturating_sub(*t) > limit + 30_000).unwrap_or(false) {
+                    samples.pop_front();
+                }
+            }
+            let slots: Vec<std::sync::Arc<WatchSlot>> = SLOTS.lock().unwrap().clone();
+            for slot in slots {
+                let started = slot.started_ms.load(Ordering::SeqCst);
+                if started == 0 || now.saturating_sub(started) < limit {
+                    continue;
+                }
+                let idx = slot.run_index.load(Ordering::SeqCst);
+                if slot.started_ms.load(Ordering::SeqCst) != started {
+                    continue; // the worker moved on meanwhile
+                }
+                // CPU burnt by the process since that run began
+                if let Some(c_now) = cpu_now {
+                    let c_then = samples.iter().rev().find(|(t, _)| *t <= started).or(samples.front()).map(|(_, c)| *c).unwrap_or(c_now);
+                    if c_now.saturating_sub(c_then) < limit / 2 {
+                        // frozen or starved: start the clock again
+                        let _ = slot.started_ms.compare_exchange(started, now, Ordering::SeqCst, Ordering::SeqCst);
+                        continue;
+                    }
+                }
+                let meta = slot.meta.lock().unwrap();
+                let detail = format!(
+                    "a run has been executing for more than {} s of wall-clock time (the process consuming CPU all the while) without finishing and without tripping a run-away guard of the simulated streams: the code under test loops without touching its input or output",
+                    limit / 1000
+                );
+                let m = match meta.as_ref() {
+                    Some(m) => m,
+                    None => {
+                        eprintln!("HARNESS ERROR: a run outside any check hangs");
+                        std::process::exit(2);
+                    }
+                };
+                let dir = verif_dir();
+                let path = if idx != u64::MAX {
+                    let sweep_len = slot.sweep_len.load(Ordering::SeqCst);
+                    let _ = std::fs::create_dir_all(dir.join("replays"));
+                    let path = dir.join("replays").join(format!("{}-{}-{}.json", m.property, m.seed, idx));
+                    let tmp = dir.join("replays").join(format!(".tmp-{}-{}.json", std::process::id(), idx));
+                    let doc = json!({
+                        "property": m.property,
+                        "scenario": m.scenario,
+                        "seed": m.seed,
+                        "tier": m.tier,
+                        "run_index": idx,
+                        "sweep_index": if idx < sweep_len { json!(idx) } else { Value::Null },
+                        "from_seed": true,
+                        "tape": Value::Null,
+                        "violation": { "class": "hang", "key": "wall-clock", "detail": detail },
+                        "log": [],
+                        "note": "not minimised: the run cannot be interrupted; replay regenerates the tape from (seed, run index)",
+                    });
+                    let _ = std::fs::write(&tmp, serde_json::to_string_pretty(&doc).unwrap());
+                    // Confirm in a fresh process before this becomes a verdict.
+                    let confirmed = std::env::current_exe().ok().and_then(|exe| {
+                        std::process::Command::new(exe)
+                            .arg("replay")
+                            .arg(&tmp)
+                            .env("VERIF_DIR", &dir)
+                            .env("VERIF_INNER", "1")
+                            .stderr(std::process::Stdio::null())
+                            .output()
+                            .ok()
+                    });
+                    if let Some(o) = &confirmed {
+                        let lines: Vec<String> = String::from_utf8_lossy(&o.stdout).lines().filter(|l| l.starts_with("  #")).map(|l| l.trim_start().to_string()).collect();
+                        attach_log(&tmp, &lines);
+                    }
+                    match confirmed.and_then(|o| o.status.code()) {
+                        Some(1) => {
+                            let _ = std::fs::rename(&tmp, &path);
                         }
-                        match confirmed.and_then(|o| o.status.code()) {
-                            Some(1) => {}
-                            other => {
+                        other => {
+                            // the same run ends in a fresh process: whatever
+                            // held it up here was not the code under test
+                            let _ = std::fs::remove_file(&tmp);
+                            strikes += 1;
+                            if strikes >= 3 {
                                 eprintln!(
-                                    "HARNESS ERROR: run {} exceeded the wall-clock limit of {} s here, but the same run in a fresh process ended with exit code {:?}: not a verdict",
+                                    "HARNESS ERROR: run {} exceeded the wall-clock limit of {} s here for the third time, but the same run in a fresh process ended with exit code {:?}: not a verdict",
                                     idx, limit / 1000, other
                                 );
                                 std::process::exit(2);
                             }
+                            let _ = slot.started_ms.compare_exchange(started, now_ms(), Ordering::SeqCst, Ordering::SeqCst);
+                            continue;
                         }
-                        path
-                    } else {
-                        m.fallback.clone().unwrap_or_else(|| dir.join("replays").join("unknown.json"))
-                    };
-                    println!("violation in run {}: hang:wall-clock -- {}", if idx == u64::MAX { "(replay or shrink candidate)".to_string() } else { idx.to_string() }, detail);
-                    println!("  => hang:wall-clock: {}", detail);
-                    println!("VIOLATION property={} replay={}", m.property, path.display());
-                }
-                None => {
-                    eprintln!("HARNESS ERROR: a run outside any check hangs");
-                    std::process::exit(2);
-                }
+                    }
+                    path
+                } else {
+                    m.fallback.clone().unwrap_or_else(|| dir.join("replays").join("unknown.json"))
+                };
+                use std::io::Write;
+                let out = std::io::stdout();
+                let mut out = out.lock();
+                let _ = writeln!(out, "violation in run {}: hang:wall-clock -- {}", if idx == u64::MAX { "(replay or shrink candidate)".to_string() } else { idx.to_string() }, detail);
+                let _ = writeln!(out, "  => hang:wall-clock: {}", detail);
+                let _ = writeln!(out, "VIOLATION property={} replay={}", m.property, path.display());
+                let _ = out.flush();
+                std::process::exit(1);
             }
-            use std::io::Write;
-            let _ = std::io::stdout().flush();
-            std::process::exit(1);
         }
     });
 }
@@ -319,11 +367,14 @@ pub fn attach_log(path: &Path, lines: &[String]) {
     }
 }
 
-/// Writes a replay file that regenerates run `idx` from the seed.
-pub fn write_seed_replay(s: &dyn Scenario, seed: u64, tier: Tier, idx: u64, class: &str, key: &str, detail: &str) -> PathBuf {
+pub fn seed_replay_path(s: &dyn Scenario, seed: u64, idx: u64) -> PathBuf {
     let dir = verif_dir();
     let _ = std::fs::create_dir_all(dir.join("replays"));
-    let path = dir.join("replays").join(format!("{}-{}-{}.json", s.id(), seed, idx));
+    dir.join("replays").join(format!("{}-{}-{}.json", s.id(), seed, idx))
+}
+
+/// Writes a replay file that regenerates run `idx` from the seed.
+pub fn write_seed_replay_to(path: &Path, s: &dyn Scenario, seed: u64, tier: Tier, idx: u64, class: &str, key: &str, detail: &str) {
     let doc = json!({
         "property": s.id(),
         "scenario": s.name(),
@@ -337,8 +388,7 @@ pub fn write_seed_replay(s: &dyn Scenario, seed: u64, tier: Tier, idx: u64, clas
         "log": [],
         "note": "not minimised: the run brings the process down or cannot be interrupted; replay regenerates the tape from (seed, run index)",
     });
-    let _ = std::fs::write(&path, serde_json::to_string_pretty(&doc).unwrap());
-    path
+    let _ = std::fs::write(path, serde_json::to_string_pretty(&doc).unwrap());
 }
 
 pub fn scenario_salt(s: &dyn Scenario) -> u64 {
@@ -486,6 +536,7 @@ pub fn check(s: &dyn Scenario, opts: &CheckOpts) -> i32 {
                         }
                     }
                 }
+                progress_note(worker, None);
                 let mut t = totals.lock().unwrap();
                 t.runs += local.runs;
                 t.evaluations += local.evaluations;
@@ -726,7 +777,19 @@ pub fn check(s: &dyn Scenario, opts: &CheckOpts) -> i32 {
 
 //------------ Replay -----------------------------------------------------------
 
+/// Replays on a thread with the stack size the workers of `check` have, so
+/// that a run that overflows the stack there does so here as well.
 pub fn replay(scenarios: &[Box<dyn Scenario>], path: &Path) -> i32 {
+    std::thread::scope(|scope| {
+        std::thread::Builder::new()
+            .stack_size(2 << 20)
+            .spawn_scoped(scope, || replay_inner(scenarios, path))
+            .map(|h| h.join().unwrap_or(2))
+            .unwrap_or(2)
+    })
+}
+
+fn replay_inner(scenarios: &[Box<dyn Scenario>], path: &Path) -> i32 {
     let text = match std::fs::read_to_string(path) {
         Ok(t) => t,
         Err(e) => {
